@@ -119,6 +119,14 @@ def strategy(tier):
                 e = ["bin", "+", e, ["var", draw(st.sampled_from(inames))]]
             assigns.append({"name": X.deriv_name(s), "expr": e, "comps": [""]})
         model = {"states": states, "params": params, "assigns": assigns}
+        # component layouts: everything in the default component, or states / parameters in
+        # "Membrane" and the intermediates in a component without states of its own ("Rates")
+        layout = draw(st.integers(0, 2))
+        if layout:
+            for x in states + params:
+                x["comps"] = ["Membrane"]
+            for a in assigns:
+                a["comps"] = ["Rates"] if (a["name"] in inames and layout == 2) else ["Membrane"]
         need = [a["name"] for a in assigns]
         pts = G.draw_points(draw, model, 2, need)
         return {"model": model, "points": pts, "sing": {k: [list(x) for x in v] for k, v in sing.items()}}
